@@ -18,6 +18,7 @@ func init() {
 
 func runC20(a *A) {
 	a.Rule("ownmap/caller-map", 6, func() { a.ruleCallerMap(map[string]string{}) })
+	a.Rule("ownmap/caller-map-not-handed-out", 5, func() { a.ruleCallerMapNotHandedOut() })
 	a.Rule("ownmap/singleton-state", 3, func() { a.ruleSingletonState() })
 	a.Rule("flow/pooled-map-cleared", 1, func() {
 		n := 0
